@@ -103,6 +103,9 @@ func streamConc(c *ctx) {
 				return echo(mkDelay(77))(req)
 			})
 			ctls = append(ctls, ctl{4000001, "broadcast", bc.addr(), bc.close})
+			// ... and two more behind the same broadcast address: calls for different unconfigured controllers overlap on
+			// the broadcast path, each waiting for the reply that carries its own serial number
+			ctls = append(ctls, ctl{4000002, "broadcast", bc.addr(), func() {}}, ctl{4000003, "broadcast", bc.addr(), func() {}})
 			bap := netip.MustParseAddrPort(bc.addr())
 			lport := freePort()
 			u := uhppote.NewUHPPOTE(types.BindAddrFrom(netip.MustParseAddr("127.0.0.1"), uint16(bind)),
@@ -202,5 +205,5 @@ func streamConc(c *ctx) {
 				fmt.Sprintf("own=%d crossed=%d err=%d races=%d%s", own, crossed, errs, races, disc), "conc/bind-"+bindMode)
 		}
 	}
-	c.w.Notes = append(c.w.Notes, "conc stream (run under the Go race detector): 8 goroutines x 5 calls (bind port 0) / 4 x 2 (fixed bind port) on ONE client against 3 UDP + 3 TCP + 1 broadcast-reached echo controllers with reply delays drawn from [0, 0.4 T); every reply is a function of its request, so a crossed reply shows; every goroutine also hands one shared profile, card, task, format list and passcode slice to SetTimeProfile / PutCard / AddTask / SetDoorPasscodes; discovery (3 replies, one at T/2) and two listen start/stop cycles with 10 datagrams each run alongside")
+	c.w.Notes = append(c.w.Notes, "conc stream (run under the Go race detector): 8 goroutines x 5 calls (bind port 0) / 4 x 2 (fixed bind port) on ONE client against 3 UDP + 3 TCP + 3 broadcast-reached echo controllers with reply delays drawn from [0, 0.4 T); every reply is a function of its request, so a crossed reply shows; every goroutine also hands one shared profile, card, task, format list and passcode slice to SetTimeProfile / PutCard / AddTask / SetDoorPasscodes; discovery (3 replies, one at T/2) and two listen start/stop cycles with 10 datagrams each run alongside")
 }
